@@ -154,7 +154,10 @@ func Profile(name string) Knobs {
 		k.PFaults = 0
 		k.PTerminating, k.PBinding, k.PBoundPending = 0, 0, 0
 		k.PMinRuntime = 0
-		k.Fill = 0.8
+		k.Fill = 0.9
+		k.NodesMin, k.NodesMax = 2, 4
+		k.WorkloadsMin, k.WorkloadsMax = 6, 20
+		k.PGang = 0.45
 		k.ActionsChoices = []string{allActions, allActions, "allocate, reclaim, preempt", "allocate, consolidation, reclaim"}
 		k.KindWeights = map[string]int{"cpu": 1, "whole": 7, "fraction": 3, "gpumem": 1}
 		k.PNotReady, k.PUnschedulable = 0, 0
@@ -241,7 +244,7 @@ func GenerateWith(k Knobs, profile string, seed int64, index int, tier string) *
 		g.k.NodesMax += 6
 		g.k.WorkloadsMax += 12
 	}
-	g.c = &spec.Case{Seed: seed, Index: index, Profile: profile, Meta: map[string]any{}}
+	g.c = &spec.Case{Seed: seed, Index: index, Profile: profile, Meta: map[string]any{"tier": tier}}
 	g.config()
 	g.priorityClasses()
 	g.genNodes()
